@@ -38,7 +38,8 @@ class Outcome:
 class Unit:
     registry = []
 
-    def __init__(self, prop, name, targets, body, note="", bounded=None, tiers=("quick", "thorough"), z3_ms=None, cvc5_ms=None):
+    def __init__(self, prop, name, targets, body, note="", bounded=None, tiers=("quick", "thorough"), z3_ms=None, cvc5_ms=None, feas_ms=None):
+        self.feas_ms = feas_ms
         self.prop, self.name, self.targets, self.body, self.note = prop, name, targets, body, note
         self.tiers, self.z3_ms, self.cvc5_ms = tiers, z3_ms, cvc5_ms
         self.bounded = bounded      # None: unbounded proof unit; str: bounded symbolic unit (bound stated)
@@ -48,11 +49,11 @@ class Unit:
         return "Unit(%s/%s)" % (self.prop, self.name)
 
 
-def unit(prop, name, targets, note="", bounded=None, tiers=("quick", "thorough"), z3_ms=None, cvc5_ms=None):
+def unit(prop, name, targets, note="", bounded=None, tiers=("quick", "thorough"), z3_ms=None, cvc5_ms=None, feas_ms=None):
     """Decorator: register a unit.  targets = [(module_name, qualname), ...] functions of /repo
     whose real bodies this unit executes under contract."""
     def deco(f):
-        u = Unit(prop, name, targets, f, note, bounded, tiers, z3_ms, cvc5_ms)
+        u = Unit(prop, name, targets, f, note, bounded, tiers, z3_ms, cvc5_ms, feas_ms)
         Unit.registry.append(u)
         f.unit = u
         return f
